@@ -54,7 +54,16 @@ def _unconditional_calls(e: ast.AST) -> list[ast.Call]:
     return out
 
 
-def run(ctx: Ctx) -> None:
+def run(ctx: Ctx, calls_decided: bool = False) -> None:
+    global NAME
+    idx = ctx.idx
+    if not calls_decided:
+        _call_shape_rules(ctx)
+    _struct_fields(ctx)
+
+
+def _call_shape_rules(ctx: Ctx) -> None:
+    """Fallback for c24_calls: shape of the callers of the argument classifier and of visit_LocalCall."""
     global NAME
     idx = ctx.idx
     n = 0
@@ -88,6 +97,10 @@ def run(ctx: Ctx) -> None:
                   "`make(q)()`: the expression in callee position of an indirect call is never visited, so a non-unitary call that "
                   "produces the callee escapes the check")
 
+
+
+def _struct_fields(ctx: Ctx) -> None:
+    idx = ctx.idx
     # ---- qubits inside struct FIELDS (structs need not be generic: the type arguments do not show them)
     qf = idx.find_class("QubitFinder", "guppylang_internals.tys.qubit")
     arm = None
